@@ -62,10 +62,11 @@ def fanArea2 (vs : List (V3 α)) (n : V3 α) : α :=
   | [] => lit 0
   | v0 :: _ => Scalar.sum ((cyclicPairs vs).map fun p => V3.dot (V3.cross (p.1 - v0) (p.2 - v0)) n)
 
+/-- sign of a real number as `-1, 0, +1` -/
+def orient_of (a : α) : α := if a < lit 0 then -(lit 1) else if lit 0 < a then lit 1 else lit 0
+
 /-- orientation of the vertex order about `n`: `+1` counter-clockwise, `-1` clockwise -/
-def orient (vs : List (V3 α)) (n : V3 α) : α :=
-  let a := fanArea2 vs n
-  if a < lit 0 then -(lit 1) else if lit 0 < a then lit 1 else lit 0
+def orient (vs : List (V3 α)) (n : V3 α) : α := orient_of (fanArea2 vs n)
 
 /-- area of the polygonal region -/
 def polygonMeasure (vs : List (V3 α)) (n : V3 α) : α := Scalar.abs (fanArea2 vs n) / lit 2
